@@ -219,6 +219,18 @@ func (m *truncModel) cutFromDepthWalk() (bool, string) {
 					return true
 				}
 			}
+		case *ssa.Parameter:
+			// the save walk sits in a helper that is handed the cut: continue with the argument at the call
+			// site through which the walk was reached
+			for _, cs := range m.save.d.chain {
+				if cal := cs.Common().StaticCallee(); cal != nil && cal == x.Parent() {
+					for k, p := range cal.Params {
+						if p == x && k < len(cs.Common().Args) {
+							return chase(cs.Common().Args[k], depth+1)
+						}
+					}
+				}
+			}
 		}
 		return false
 	}
